@@ -189,6 +189,9 @@ func cmdCheck(args []string) int {
 		return 2
 	}
 	eng.crossCheck = tier == 1
+	for _, f := range cfg.ExtraStubs {
+		eng.sinkFuncs[f] = true
+	}
 
 	deadline := t0.Add(15 * time.Minute)
 	if tier == 1 {
